@@ -112,15 +112,31 @@ def cse_grammar(rnd, n):
 
 # -- obtaining a model ---------------------------------------------------------------------------------
 
+def sheets_of(wb):
+    """sheet names in workbook order: 'S' first, then others as they appear in cell keys ('T!A1')"""
+    names = ['S']
+    for c in list(wb.inputs) + list(wb.formulas):
+        if '!' in c and c.split('!')[0] not in names:
+            names.append(c.split('!')[0])
+    return names
+
+
 def to_openpyxl(wb):
     import openpyxl
     book = openpyxl.Workbook()
     ws = book.active
     ws.title = 'S'
+    sheets = {'S': ws}
+    for name in sheets_of(wb)[1:]:
+        sheets[name] = book.create_sheet(name)
+
+    def put(c, v):
+        sh, cell = c.split('!') if '!' in c else ('S', c)
+        sheets[sh][cell] = v
     for c, v in wb.inputs.items():
-        ws[c] = v
+        put(c, v)
     for c, f in wb.formulas.items():
-        ws[c] = f
+        put(c, f)
     if wb.arrays:
         from openpyxl.worksheet.formula import ArrayFormula
         for c, (ref, text) in wb.arrays.items():
@@ -152,15 +168,19 @@ def save_xlsx_with_results(wb, path, results=None, tamper=None):
     results = dict(results if results is not None else oracle_values(wb, list(wb.formulas)))
     if tamper:
         results.update(tamper)
+    names = sheets_of(wb)
     zin = zipfile.ZipFile(path)
     buf = io.BytesIO()
     zout = zipfile.ZipFile(buf, 'w', zipfile.ZIP_DEFLATED)
     for item in zin.infolist():
         data = zin.read(item.filename)
-        if item.filename.startswith('xl/worksheets/sheet'):
+        m_sheet = re.match(r'xl/worksheets/sheet(\d+)\.xml$', item.filename)
+        if m_sheet:
+            this_sheet = names[int(m_sheet.group(1)) - 1]
             text = data.decode('utf-8')
             for c, val in results.items():
-                if val is None:
+                sh, c = c.split('!') if '!' in c else ('S', c)
+                if val is None or sh != this_sheet:
                     continue
                 if isinstance(val, bool):
                     attr, body = ' t="b"', '1' if val else '0'
@@ -280,11 +300,16 @@ def run_history(comp, wb, history, check_each=True):
 
 # -- static dependencies of a grammar workbook -----------------------------------------------------------
 
-_REF = re.compile(r"\$?([A-Z])\$?(\d+)(?::\$?([A-Z])\$?(\d+))?|\b([A-Z]):([A-Z])\b")
+_REF = re.compile(r"(?:(\w+)!)?(?:\$?([A-Z])\$?(\d+)(?::\$?([A-Z])\$?(\d+))?|\b([A-Z]):([A-Z])\b)")
+
+
+def _key(sheet, cell):
+    return cell if sheet == 'S' else f'{sheet}!{cell}'
 
 
 def direct_reads(wb):
-    """cell -> set of cells (of this workbook) its formula mentions, ranges expanded, A:A clipped to the cells"""
+    """cell -> set of cells (of this workbook) its formula mentions, ranges expanded, A:A clipped to the cells;
+    unqualified references are on the formula's own sheet"""
     cells = set(wb.cells())
     out = {}
     texts = dict(wb.formulas)
@@ -294,19 +319,22 @@ def direct_reads(wb):
             for c in range(ord(a[0]), ord(b[0]) + 1):
                 texts[f'{chr(c)}{r}'] = text
     for cell, f in texts.items():
+        own = cell.split('!')[0] if '!' in cell else 'S'
         reads = set()
         body = re.sub(r'"[^"]*"', '', f)
         for m in _REF.finditer(body):
-            if m.group(5):
+            sh = m.group(1) or own
+            if m.group(6):
                 for c in cells:
-                    if m.group(5) <= c[0] <= m.group(6):
+                    csh, cc = c.split('!') if '!' in c else ('S', c)
+                    if csh == sh and m.group(6) <= cc[0] <= m.group(7):
                         reads.add(c)
-            elif m.group(3):
-                for r in range(int(m.group(2)), int(m.group(4)) + 1):
-                    for c in range(ord(m.group(1)), ord(m.group(3)) + 1):
-                        reads.add(f'{chr(c)}{r}')
+            elif m.group(4):
+                for r in range(int(m.group(3)), int(m.group(5)) + 1):
+                    for c in range(ord(m.group(2)), ord(m.group(4)) + 1):
+                        reads.add(_key(sh, f'{chr(c)}{r}'))
             else:
-                reads.add(f'{m.group(1)}{m.group(2)}')
+                reads.add(_key(sh, f'{m.group(2)}{m.group(3)}'))
         out[cell] = reads
     return out
 
